@@ -3,6 +3,12 @@
   canonical bencoding.  Property theorems only.
 -/
 import Torf.Lemmas.Codec
+import Torf.Lemmas.CodecLookup
+import Torf.Lemmas.Span
+import Torf.Lemmas.Magnet
+import Torf.Lemmas.Base32
+import Torf.Lemmas.Dump
+import Torf.Lemmas.BencodeSmallMono
 import Torf.Model.ReadStream
 namespace Torf.C06
 open Torf Torf.Bencode Torf.Codec Torf.ReadStream
@@ -62,14 +68,11 @@ theorem C06_info_canonical (env : Env) (md : List (PyVal × PyVal)) (ib : Bytes)
     · exact absurd h (by simp)
 
 /-- Every conforming parser computes the same value from canonical bytes: the canonical value
-    with a given serialisation is unique. -/
-theorem C06_conforming_unique (lim : Nat) (bs : Bytes) (v w : BVal)
-    (hv : canon v = true) (hw : canon w = true) (sv : small lim v = true) (sw : small lim w = true)
-    (h1 : ser v = bs) (h2 : ser w = bs) : v = w := by
-  have p1 := parse_ser lim v hv sv
-  have p2 := parse_ser lim w hw sw
-  rw [h1] at p1; rw [h2] at p2
-  exact Option.some.inj (p1.symm.trans p2)
+    with a given serialisation is unique (no digit limit involved). -/
+theorem C06_conforming_unique (bs : Bytes) (v w : BVal)
+    (hv : canon v = true) (hw : canon w = true)
+    (h1 : ser v = bs) (h2 : ser w = bs) : v = w :=
+  ser_inj_canon v w hv hw (h1.trans h2.symm)
 
 /-- `infohash` is the lower-case hex of `H` applied to exactly the info bytes. -/
 theorem C06_infohash_def (env : Env) (H : Bytes → Bytes) (md : List (PyVal × PyVal)) (h : Bytes)
@@ -81,6 +84,100 @@ theorem C06_infohash_def (env : Env) (H : Bytes → Bytes) (md : List (PyVal × 
     simp only [Except.ok.injEq] at hh
     exact ⟨ib, hib, hh.symm⟩
   · exact absurd hh (by simp)
+
+/-- **The hashed bytes are a slice of the written file, at the place where a conforming parser
+    finds the value of the top-level key `info`.**  For every metainfo that is a Python dict
+    (`wf`), whenever `dump()` returns `bs` and `infohash` returns `h`: `bs` splits as
+    `pre ++ ser (encode_dict info) ++ post`, the strict parser's span (offset, length) of the
+    value of top-level key `info` in `bs` is exactly `(|pre|, |ser (encode_dict info)|)`, and `h`
+    is the hex digest of that slice. -/
+theorem C06_span (env : Env) (H : Bytes → Bytes) (md : List (PyVal × PyVal)) (validate : Bool)
+    (bs h : Bytes) (hw : wf (.dict (ensureInfo md)) = true)
+    (hd : dump env md validate = .ok bs) (hh : infohash env H md = .ok h) :
+    ∃ pre post ikvs iu, PyVal.lookupStr "info" (ensureInfo md) = some (.dict ikvs) ∧
+      encodeDict ikvs = .ok iu ∧
+      bs = pre ++ ser iu ++ post ∧
+      spanOf env.lim kInfo bs = some (pre.length, (ser iu).length) ∧
+      (bs.drop pre.length).take (ser iu).length = ser iu ∧
+      h = Base32.hexLower (H (ser iu)) := by
+  obtain ⟨ib, hib, hh'⟩ := C06_infohash_def env H md h hh
+  obtain ⟨ikvs, iu, hl, hiu, hibs, _⟩ := C06_info_canonical env md ib hib
+  obtain ⟨u, hu, hs, hbs⟩ := dump_ok hd
+  obtain ⟨ukvs, v, hukvs, hv, hm⟩ := mem_encodeDict "info" (.dict ikvs) _ u hu hl
+  have hviu : v = iu := by
+    have : Except.ok v = Except.ok iu := hv.symm.trans hiu
+    exact Except.ok.inj this
+  subst hviu
+  have huniq := uniq_encodeValue _ _ hu hw
+  subst hukvs
+  have hk : utf8Enc "info" = kInfo := by decide
+  rw [hk] at hm
+  obtain ⟨pre, post, hsplit, hspan⟩ := spanOf_ser_dict env.lim kInfo v ukvs huniq hs hm
+  refine ⟨pre, post, ikvs, v, hl, hiu, by rw [hbs, hsplit], by rw [hbs, hspan], ?_, by rw [hh', hibs]⟩
+  rw [hbs, hsplit]
+  simp
+
+/-- **`magnet().xt` is `'urn:btih:'` followed by the infohash** — whenever the `xt` setter
+    accepts it (otherwise `MagnetError`; see `C06_magnet_ok`). -/
+theorem C06_magnet (env : Env) (H : Bytes → Bytes) (md : List (PyVal × PyVal)) (g h : Bytes)
+    (hg : magnetXtOf env H md = .ok g) (hh : infohash env H md = .ok h) :
+    g = urnBtih ++ h := by
+  simp only [magnetXtOf, hh, magnetXt_urn] at hg
+  split at hg
+  · exact (Except.ok.inj hg).symm
+  · exact absurd hg (by simp)
+
+/-- **No `MagnetError`:** for a 20-byte digest function `magnet().xt` exists (and by `C06_magnet`
+    is `'urn:btih:' + infohash`). -/
+theorem C06_magnet_ok (env : Env) (H : Bytes → Bytes) (md : List (PyVal × PyVal)) (h : Bytes)
+    (hH : ∀ x, (H x).length = 20) (hh : infohash env H md = .ok h) :
+    magnetXtOf env H md = .ok (urnBtih ++ h) := by
+  obtain ⟨ib, _, rfl⟩ := C06_infohash_def env H md h hh
+  simp only [magnetXtOf, hh, magnetXt_urn, matchesInfohash_hexLower _ (hH ib), if_true]
+
+/-- **`b32decode(infohash_base32) == bytes.fromhex(infohash)` (= the digest).**  For every digest
+    function `H` (any output length, in particular all 20-byte digests): `infohash_base32`
+    never raises once `infohash` succeeds, and decoding it with `base64.b32decode` gives the
+    same bytes as un-hexing `infohash`, namely `H(info bytes)`.  Proved from the general
+    regrouping lemmas `Base32.b32decode_b32encode` (40-bit quanta ↔ 8 base-32 digits ↔ 5
+    base-256 digits, all four padded tails) and `b16decode_upper_hexLower`; no enumeration. -/
+theorem C06_base32 (env : Env) (H : Bytes → Bytes) (md : List (PyVal × PyVal)) (h : Bytes)
+    (hh : infohash env H md = .ok h) :
+    ∃ ib e, infoBytes env md = .ok ib ∧ infohashBase32 env H md = .ok e ∧
+      Base32.b32decode e = some (H ib) ∧ Base32.unhexLower h = some (H ib) := by
+  obtain ⟨ib, hib, rfl⟩ := C06_infohash_def env H md h hh
+  refine ⟨ib, Base32.b32encode (H ib), hib, ?_, Base32.b32decode_b32encode _,
+    Base32.unhexLower_hexLower _⟩
+  simp only [infohashBase32, hh, Base32.b16decode_upper_hexLower]
+
+/-- for 20-byte digests `infohash_base32` is 32 characters of `A-Z2-7` without padding (what
+    `_INFOHASH_REGEX` and BEP 9 expect) -/
+theorem C06_base32_shape (env : Env) (H : Bytes → Bytes) (md : List (PyVal × PyVal)) (e : Bytes)
+    (hH : ∀ x, (H x).length = 20) (he : infohashBase32 env H md = .ok e) :
+    e.length = 32 ∧ ∀ c ∈ e, (65 ≤ c.toNat ∧ c.toNat ≤ 90) ∨ (50 ≤ c.toNat ∧ c.toNat ≤ 55) := by
+  unfold infohashBase32 at he
+  split at he
+  · rename_i h hh
+    obtain ⟨ib, _, rfl⟩ := C06_infohash_def env H md h hh
+    simp only [Base32.b16decode_upper_hexLower, Except.ok.injEq] at he
+    subst he
+    have h5 : (H ib).length % 5 = 0 := by rw [hH]
+    exact ⟨by rw [Base32.b32encode_length_of_dvd _ h5, hH], Base32.b32encode_all_alpha_of_dvd _ h5⟩
+  · exact absurd he (by simp)
+
+/-! ### non-vacuity -/
+
+/-- non-vacuity of `C06_span`, `C06_magnet`, `C06_magnet_ok`, `C06_base32`, `C06_base32_shape`:
+    their hypotheses hold together on `exMd` — `dump`, `infohash`, `infohash_base32` succeed, the
+    digest function is 20 bytes long — and the span reported for `info` is (13, 33):
+    `d4:name…16384e` starts right after `d1:ai5e4:info`. -/
+example : wf (.dict (ensureInfo exMd)) = true ∧ (∀ x, (exH x).length = 20) ∧
+    dump exEnv exMd true = .ok exDump ∧
+    infohash exEnv exH exMd = .ok (List.replicate 20 [50, 49]).flatten ∧
+    infohashBase32 exEnv exH exMd = .ok ((List.replicate 4 [69, 69, 81, 83, 67, 73, 74, 66]).flatten) ∧
+    spanOf exEnv.lim kInfo exDump = some (13, 33) :=
+  ⟨by decide, fun x => by simp [exH], ok_of_toOption (by decide +kernel),
+   ok_of_toOption (by decide +kernel), ok_of_toOption (by decide +kernel), by decide +kernel⟩
 
 /-- non-vacuity of `C06_canonical`: a metainfo with a bool, a float, a datetime, a tuple and a
     non-ASCII key is well-formed and dumps successfully. -/
